@@ -12,7 +12,7 @@ Extracted (regenerated on every run):
   * the Avatar run scanner bound (`pos.x + 3 < buf.get_width()`), the short-run limit (`repeat_count < 4`) and the three
     quoted characters; the ATASCII escape set and inverse-video offset;
   * (merged tree) the shared cursor code the parsers' models mirror, matched token by token: the `UpperLeftCorner` arm of
-    TerminalState::limit_caret_pos (row clamped only `if buf.is_terminal_buffer`, column clamped to 0..=max(width-1,0)),
+    TerminalState::limit_caret_pos (row clamped to the screen `if buf.is_terminal_buffer`, else only kept >= 0; column clamped to 0..=max(width-1,0)),
     the Avatar parser's cursor arms 3/4/5/6 and its goto (1-based bytes, then limit_caret_pos; the `min(79, ..)` bound is
     extracted), Caret::ff (shrinks the buffer only `if buf.is_terminal_buffer`), Caret::home / Buffer::upper_left_position /
     get_first_visible_line (0 for a non-terminal buffer) and the Ctrl-A `'` arm that calls Caret::home.
@@ -208,6 +208,7 @@ def generate(repo):
     sig, lb = ts.find_fn('limit_caret_pos')
     pin(lb, 'match self . origin_mode { crate :: OriginMode :: UpperLeftCorner => { if buf . is_terminal_buffer { let first = '
             'buf . get_first_visible_line ( ) ; caret . pos . y = caret . pos . y . clamp ( first , first + self . get_height ( ) - 1 ) ; } '
+            'else { caret . pos . y = caret . pos . y . max ( 0 ) ; } '     # C02 fix d135f2b: rows of a file buffer never go below 0 (the model's rows are nat)
             'caret . pos . x = caret . pos . x . clamp ( 0 , ( self . get_width ( ) - 1 ) . max ( 0 ) ) ; } '
             'crate :: OriginMode :: WithinMargins => {', 'TerminalState::limit_caret_pos (UpperLeftCorner arm)')
     pmod = f('src/parsers/mod.rs')
